@@ -34,22 +34,22 @@ FS0 = 100.0
 QUICK_EVENTS = [
     ("dec", 2, {}),
     ("dec", 3, {}),
-    ("dec", 2, {"ftype": "fir"}),
     ("dec", 2, {"zero_phase": False}),
     ("det", {}),
     ("det", {"type": "constant"}),
+    ("det", {"bp": "half"}),
     ("fil", "lowpass", 0.3, 4),
     ("rb",),
     ("add",),
 ]
 MORE_EVENTS = [
+    ("dec", 2, {"ftype": "fir"}),
     ("dec", 4, {}),
     ("dec", 5, {}),
     ("dec", 3, {"ftype": "fir"}),
     ("dec", 2, {"n": 4}),
     ("dec", 3, {"zero_phase": False, "ftype": "fir"}),
     ("dec", 4, {"ftype": "fir", "n": 20}),
-    ("det", {"bp": "half"}),
     ("det", {"type": "constant", "bp": "thirds"}),
     ("fil", "highpass", 0.05, 4),
     ("fil", "bandpass", (0.1, 0.4), 2),
